@@ -18,6 +18,8 @@ func main() {
 	switch os.Args[1] {
 	case "dev":
 		dev(os.Args[2:])
+	case "replay":
+		os.Exit(replayCmd(os.Args[2]))
 	case "check":
 		if len(os.Args) < 4 {
 			fmt.Println("usage: govc check <prop> quick|thorough")
